@@ -138,7 +138,7 @@ def step (code : Code) (σ : Vm) : StepRes :=
     | .throwZeroStep => .error Ref.codeZeroStep p σ
     | .halt => .halt σ
     | .allocate t => .next (advance (setA σ (Ref.zeroOf t)))
-    | .printSetPrinter => .next (advance σ)
+    | .printSetPrinter => .next (advance { σ with skipNewline := false })
     | .printSetFormat =>
       match σ.regs.a with
       | .str _ => .stuck
